@@ -173,6 +173,7 @@ func readerMatrix(pj *simdjson.ParsedJson, want []*ref.Value, o readerOpts) (out
 	if o.Lookups {
 		add("FindKey/FindPath", lookupReader(pj, want))
 		add("PeekNext/PeekNextTag", peekReader(pj, want))
+		add("Array.As*/FirstType", typedArrayReader(pj, want))
 	}
 	if o.Serialize {
 		d := ""
@@ -332,6 +333,49 @@ func peekReader(pj *simdjson.ParsedJson, want []*ref.Value) string {
 				}
 				// step with AdvanceInto (scalars only, so it stays on this level)
 				ai.AdvanceInto()
+			}
+		}
+		return nil
+	})
+	if perr != nil && d == "" {
+		d = "error: " + perr.Error()
+	}
+	return d
+}
+
+// typedArrayReader: the typed and bulk accessors of arrays (bounded number per document)
+// must give what the model's live members say.
+func typedArrayReader(pj *simdjson.ParsedJson, want []*ref.Value) string {
+	d := ""
+	perr := walk.Guard(func() error {
+		n := 0
+		for _, l := range allLocs(want, 400) {
+			ma := modelAt(want, l)
+			if ma.K != ref.Array {
+				continue
+			}
+			if n++; n > 12 {
+				break
+			}
+			l := l
+			getArr := func() *simdjson.Array {
+				it, err := locateInto(pj, l)
+				if err != nil {
+					return nil
+				}
+				a, err := it.Array(nil)
+				if err != nil {
+					return nil
+				}
+				return a
+			}
+			arrayAccessors(getArr, ma, func() {}, func(api, detail string) {
+				if d == "" {
+					d = api + " at " + l.String() + ": " + detail
+				}
+			})
+			if d != "" {
+				return nil
 			}
 		}
 		return nil
